@@ -125,7 +125,7 @@ def run_checks(meta, pid, checks, tier, patch, demo, src, name, result, ran):
         finally:
             sh("git -C %s checkout -- . && git -C %s clean -fdq tests" % (REPO, REPO))
         ran.append("git -C /repo checkout -- .")
-    dst = os.path.join(ROOT, "seeded", name)
+    dst = os.path.join(os.environ.get("SEED_OUT", os.path.join(ROOT, "seeded")), name)
     os.makedirs(dst, exist_ok=True)
     if os.path.abspath(src) != os.path.abspath(dst):
         shutil.copy(patch, os.path.join(dst, "patch.diff"))
